@@ -238,6 +238,25 @@ class DiskCache:
         self._cache.set(key + self._HMAC_SUFFIX, value_hmac)
 
 
+def _pickle_without_memo(obj: Any) -> bytes:
+    """Pickle so that equal values give equal bytes.
+
+    The default pickler emits back-references for objects it has already seen,
+    so the bytes depend on which equal sub-objects happen to be the same object
+    (e.g. an interned vs. a freshly built string). Keys must not.
+    """
+    import io
+
+    buffer = io.BytesIO()
+    pickler = pickle.Pickler(buffer)
+    pickler.fast = True  # no memo, hence no back-references
+    try:
+        pickler.dump(obj)
+    except (RecursionError, ValueError):
+        return pickle.dumps(obj)  # self-referential input: only the memoising pickler terminates
+    return buffer.getvalue()
+
+
 def compute_cache_key(definition_hash: str, inputs: dict[str, Any]) -> str:
     """Compute a cache key from node identity and input values.
 
@@ -250,7 +269,7 @@ def compute_cache_key(definition_hash: str, inputs: dict[str, Any]) -> str:
     """
     try:
         sorted_items = sorted(inputs.items())
-        inputs_bytes = pickle.dumps(sorted_items)
+        inputs_bytes = _pickle_without_memo(sorted_items)
     except (pickle.PicklingError, TypeError, AttributeError) as exc:
         logger.warning("Cache miss: inputs not picklable (%s)", exc)
         return ""
